@@ -5,6 +5,7 @@ P=${1:-3}
 cd /verif
 for d in seeded/*/; do
   n=$(basename "$d")
-  ids=$(python3 -c "import json;print(' '.join(json.load(open('$d/meta.json'))['caught_by'][:1]))")
+  ids=$(python3 -c "import json;m=json.load(open('$d/meta.json'));print('' if 'obsolete_since' in m else ' '.join(m['caught_by'][:1]))")
+  if [ -z "$ids" ]; then echo "SEEDTEST /verif/$d: obsolete (see meta.json), skipped" >&2; continue; fi
   echo "/verif/$d $ids"
 done | xargs -P "$P" -L 1 bash -c 'tools/seedtest.sh $0 $1 2>&1 | tr "\n" " " | cut -c1-260; echo'
